@@ -1,3 +1,3 @@
 #pragma once
 #include "c20x_sac.h"
-size_t g_pub_ubits, g_len0; const bn_st *g_pub_u;
+size_t g_pub_ubits, g_len0;
